@@ -4,7 +4,8 @@ import re
 from typing import Dict, List, Optional, Set, Tuple
 
 from ..model import Repo, FunctionInfo, AnalysisError, walk_no_nested, src, is_self_attr, call_name, dotted, parent, enclosing_stmt
-from ..core import Ob, Rule, Mutant, mutate_module, find_def, replace_node
+from ..core import Ob, Rule, Mutant, mutate_module, find_def, replace_node, inconclusive
+from ..ratfun import Normalizer, RF, Poly
 from ..dataflow import Defs
 from ..cfg import cfg_of
 from .validate import node_for, raise_guards_before, controlling_tests
@@ -74,21 +75,67 @@ def rule_cpt(repo: Repo) -> List[Ob]:
                   "CPT assembly order default -> table -> entries -> NaN check is broken"))
     # table layout: own value slowest, parents in product order
     tb = cls.methods.get("__add_table__")
-    ok = False
+    verdict, msg = None, "table indexing not recognised"
     if tb is not None:
-        s = src(tb.node)
+        defs = Defs(tb.node, tb.params()[0])
+        tparam = tb.params()[-1]
+        subs = [x for x in ast.walk(tb.node) if isinstance(x, ast.Subscript) and isinstance(x.value, ast.Name) and x.value.id == tparam and isinstance(x.slice, ast.BinOp)]
         loops = [n for n in walk_no_nested(tb.node) if isinstance(n, ast.For)]
-        ok = any("enumerate(product(*" in src(l.iter) for l in loops) and re.search(r"table\[row \+ i \* \w+\]", s) is not None \
-            and "range(variable.domain_size)" in s and "len(table) != variable.domain_size *" in s
-    obs.append(Ob("E-cpt", f"{TR}::NetworkTransformer.__add_table__::layout", TR, tb.node.lineno if tb else 0, "NetworkTransformer.__add_table__", ok,
-                  "table entry for (row, value i) is table[row + i * rows]: own value varies slowest, parent combinations in product order; length is checked" if ok else
-                  "table indexing deviates from `table[row + i * rows]` over enumerate(product(parent domains))"))
+        rowvar = None
+        for l in loops:
+            if isinstance(l.iter, ast.Call) and call_name(l.iter) == "enumerate" and "product(" in src(l.iter) and isinstance(l.target, ast.Tuple) and isinstance(l.target.elts[0], ast.Name):
+                rowvar = l.target.elts[0].id
+        if subs and rowvar:
+            nz = Normalizer()
+            try:
+                idx = nz(subs[0].slice)
+                names = {n.id for n in ast.walk(subs[0].slice) if isinstance(n, ast.Name)} - {rowvar}
+                # the other loop variable (value position) and the two sizes
+                size_names = [nm for nm in names if any(isinstance(v, ast.expr) and ("reduce(" in src(v) or "prod(" in src(v)) for v in defs.defs.get(nm, []))]
+                val_names = [nm for nm in names if nm not in size_names]
+                if len(size_names) == 1 and len(val_names) == 1:
+                    R_, I_, N_ = RF(Poly.atom(rowvar)), RF(Poly.atom(val_names[0])), RF(Poly.atom(size_names[0]))
+                    if idx.equiv(R_ + I_ * N_):
+                        verdict, msg = True, "table entry for (row, value i) is table[row + i * rows]: own value varies slowest, parent combinations in product order"
+                    else:
+                        verdict, msg = False, f"table index `{src(subs[0].slice)}` is not row + i * (number of rows): the flat table is read in the wrong order"
+                elif len(names) == 2 and not size_names:
+                    # row * domain_size + i : transposed layout
+                    if any(isinstance(x, ast.Attribute) and x.attr == "domain_size" for x in ast.walk(subs[0].slice)):
+                        verdict, msg = False, f"table index `{src(subs[0].slice)}` uses the domain size as stride: values of one row are read as adjacent although the BIF table lists the own value slowest"
+            except AnalysisError:
+                pass
+    if verdict is None:
+        obs.append(inconclusive("E-cpt", f"{TR}::NetworkTransformer.__add_table__::layout", TR, tb.node.lineno if tb else 0, "NetworkTransformer.__add_table__", msg))
+    else:
+        obs.append(Ob("E-cpt", f"{TR}::NetworkTransformer.__add_table__::layout", TR, tb.node.lineno, "NetworkTransformer.__add_table__", verdict, msg))
     # the tolerance predicate itself
     net = repo.function("bayesnet/bayes_network.py", "BayesNetwork.cpt_entry_sum_valid")
-    rets = [src(r.value) for r in walk_no_nested(net.node) if isinstance(r, ast.Return)]
-    ok = rets == ["abs(1 - sum(probabilities)) < self.cpt_tolerance"] or rets == ["abs(sum(probabilities) - 1) < self.cpt_tolerance"]
-    obs.append(Ob("E-cpt", "bayesnet/bayes_network.py::BayesNetwork.cpt_entry_sum_valid::predicate", net.relpath, net.node.lineno, net.qualname, ok,
-                  "a row is valid iff |1 - sum| < tolerance" if ok else f"row validity is `{rets}`"))
+    rets = [r.value for r in walk_no_nested(net.node) if isinstance(r, ast.Return)]
+    verdict, msg = None, "row validity predicate not recognised"
+    if len(rets) == 1 and isinstance(rets[0], ast.Compare) and len(rets[0].ops) == 1:
+        c0 = rets[0]
+        l, r_, o = c0.left, c0.comparators[0], c0.ops[0]
+        if isinstance(o, (ast.Gt, ast.GtE)):
+            l, r_ = r_, l
+        if isinstance(l, ast.Call) and call_name(l) == "abs" and l.args:
+            nz = Normalizer(attr_cb=lambda a: None)
+            try:
+                d = nz(l.args[0])
+                p_ = net.params()[1]
+                want = nz(ast.parse(f"1 - sum({p_})").body[0].value)
+                if (d.equiv(want) or d.equiv(-want)) and "tolerance" in src(r_):
+                    verdict, msg = True, "a row is valid iff |1 - sum| < tolerance"
+                elif "tolerance" in src(r_):
+                    verdict, msg = False, f"row validity compares `{src(l.args[0])}` with the tolerance, not |1 - sum(row)|"
+            except AnalysisError:
+                pass
+        elif "tolerance" in src(l) and isinstance(r_, ast.Call) and call_name(r_) == "abs":
+            verdict, msg = False, "row validity accepts rows whose deviation from 1 EXCEEDS the tolerance"
+    if verdict is None:
+        obs.append(inconclusive("E-cpt", "bayesnet/bayes_network.py::BayesNetwork.cpt_entry_sum_valid::predicate", net.relpath, net.node.lineno, net.qualname, msg))
+    else:
+        obs.append(Ob("E-cpt", "bayesnet/bayes_network.py::BayesNetwork.cpt_entry_sum_valid::predicate", net.relpath, net.node.lineno, net.qualname, verdict, msg))
     return obs
 
 
@@ -204,8 +251,11 @@ def rule_codegen(repo: Repo) -> List[Ob]:
                   "variables are drawn in topological order (parents before children)" if ok else "variables are not emitted in topological order: a child may be drawn from stale parent values"))
     ts = gen.methods.get("__topological_sort__")
     ok = ts is not None and any(isinstance(n, ast.Assert) and "len(" in src(n.test) for n in walk_no_nested(ts.node))
-    obs.append(Ob("E-codegen", f"{CG}::CodeGenerator.__topological_sort__::complete", CG, ts.node.lineno if ts else 0, "CodeGenerator.__topological_sort__", ok,
-                  "the sort asserts that every variable was placed (cycles are refused)" if ok else "topological sort no longer checks that all variables were placed"))
+    if ok:
+        obs.append(Ob("E-codegen", f"{CG}::CodeGenerator.__topological_sort__::complete", CG, ts.node.lineno, "CodeGenerator.__topological_sort__", True,
+                      "the sort asserts that every variable was placed (cycles are refused)"))
+    else:
+        obs.append(inconclusive("E-codegen", f"{CG}::CodeGenerator.__topological_sort__::complete", CG, ts.node.lineno if ts else 0, "CodeGenerator.__topological_sort__", "completeness assertion of the sort not recognised"))
     # value numbering: every value -> number conversion is <variable>.domain.index(value), paired with the same variable's name
     sites = 0
     for rp in (CG, "bayesnet/query/exact_inference_query.py", "bayesnet/query/sampling_time_query.py"):
@@ -239,27 +289,50 @@ def rule_codegen(repo: Repo) -> List[Ob]:
                     obs.append(Ob("E-codegen", f"{rp}::{f.qualname}::numbering::{src(c)[:40]}", rp, c.lineno, f.qualname, ok,
                                   f"value `{src(a)}` is numbered by its position in the domain of the variable it belongs to" if ok else
                                   f"`{src(c)[:60]}`: the value is not looked up in the domain of its own variable (variable index {sv!r}, value index {sa!r})"))
-    if sites < 6:
-        raise AnalysisError(f"only {sites} value-numbering sites found")
-    # categorical assignment enumerates 0..len(domain)-1 with the last value implicit
+    if sites == 0:
+        obs.append(inconclusive("E-codegen", f"{CG}::numbering", CG, 0, "CodeGenerator", "no `<variable>.domain.index(value)` site recognised"))
+    # categorical assignment: value i is emitted with probability cpt[comb][i]
     ga = gen.methods.get("__generate_assignment__")
-    ok = False
+    verdict, msg = None, "pairing of value and probability in the generated choice not recognised"
     if ga is not None:
-        s = src(ga.node)
-        ok = "range(len(var.domain) - 1)" in s and "var.cpt[comb][i]" in s and "str(len(var.domain) - 1)" in s and "str(i) + ' {'" in s
-    obs.append(Ob("E-codegen", f"{CG}::CodeGenerator.__generate_assignment__::enumeration", CG, ga.node.lineno if ga else 0, "CodeGenerator.__generate_assignment__", ok,
-                  "value i is emitted with probability cpt[comb][i]; the last value takes the remainder" if ok else "generated choice does not pair value i with cpt[comb][i]"))
-    # if / elif / else over all parent combinations: last combination is the else branch
+        cpts = [x for x in ast.walk(ga.node) if isinstance(x, ast.Subscript) and isinstance(x.value, ast.Subscript) and isinstance(x.value.value, ast.Attribute) and x.value.value.attr == "cpt"]
+        if cpts:
+            pidx = src(cpts[0].slice)
+            # the value emitted next to it: str(<idx>) / format argument in the same expression statement
+            st = enclosing_stmt(cpts[0])
+            nums = [src(x.args[0]) for x in ast.walk(st) if isinstance(x, ast.Call) and isinstance(x.func, ast.Name) and x.func.id == "str" and x.args and x.args[0] is not cpts[0]
+                    and not any(y is cpts[0] for y in ast.walk(x))]
+            fmt = [src(a) for x in ast.walk(st) if isinstance(x, ast.Call) and call_name(x) == "format" for a in x.args if not any(y is cpts[0] for y in ast.walk(a))]
+            cands = nums + fmt
+            if cands:
+                if pidx in cands:
+                    verdict, msg = True, "value i is emitted with probability cpt[comb][i]; the last value takes the remainder"
+                else:
+                    verdict, msg = False, f"the generated choice pairs value `{cands[0]}` with probability cpt[comb][{pidx}]"
+    if verdict is None:
+        obs.append(inconclusive("E-codegen", f"{CG}::CodeGenerator.__generate_assignment__::enumeration", CG, ga.node.lineno if ga else 0, "CodeGenerator.__generate_assignment__", msg))
+    else:
+        obs.append(Ob("E-codegen", f"{CG}::CodeGenerator.__generate_assignment__::enumeration", CG, ga.node.lineno, "CodeGenerator.__generate_assignment__", verdict, msg))
+    # one branch per parent combination, each assigning from the row of that combination
     gv = gen.methods.get("__generate_variable__")
-    gc = gen.methods.get("__generate_condition__")
-    ok = False
-    if gv is not None and gc is not None:
-        sv, sc = src(gv.node), src(gc.node)
-        ok = "enumerate(product(*parent_domains))" in sv and "comb_idx == 0" in sv and "comb_idx == num_combinations - 1" in sv \
-            and "self.__generate_assignment__(var, comb)" in sv and "range(len(comb) - 1)" in sc
-    obs.append(Ob("E-codegen", f"{CG}::CodeGenerator.__generate_variable__::branches", CG, gv.node.lineno if gv else 0, "CodeGenerator.__generate_variable__", ok,
-                  "one branch per parent combination in product order, each assigning from the row of that combination" if ok else
-                  "branch generation does not enumerate product(parent domains) with the matching CPT row"))
+    verdict, msg = None, "branch generation not recognised"
+    if gv is not None:
+        loops = [n for n in walk_no_nested(gv.node) if isinstance(n, ast.For) and "product(" in src(n.iter)]
+        if loops:
+            l = loops[0]
+            tnames = [x.id for x in ast.walk(l.target) if isinstance(x, ast.Name)]
+            comb = tnames[-1] if tnames else None
+            calls = [c for c in ast.walk(l) if isinstance(c, ast.Call) and call_name(c) == "__generate_assignment__" and len(c.args) == 2]
+            condcalls = [c for c in ast.walk(l) if isinstance(c, ast.Call) and call_name(c) == "__generate_condition__" and len(c.args) >= 2]
+            if calls and condcalls and comb:
+                same = src(calls[0].args[1]) == comb and src(condcalls[0].args[1]) == comb
+                verdict = True if same else False
+                msg = "one branch per parent combination in product order, each assigning from the row of that combination" if same else \
+                    f"the branch condition is generated for `{src(condcalls[0].args[1])}` but the assignment for `{src(calls[0].args[1])}`"
+    if verdict is None:
+        obs.append(inconclusive("E-codegen", f"{CG}::CodeGenerator.__generate_variable__::branches", CG, gv.node.lineno if gv else 0, "CodeGenerator.__generate_variable__", msg))
+    else:
+        obs.append(Ob("E-codegen", f"{CG}::CodeGenerator.__generate_variable__::branches", CG, gv.node.lineno, "CodeGenerator.__generate_variable__", verdict, msg))
     return obs
 
 
@@ -302,6 +375,6 @@ def mut_codegen(repo: Repo) -> List[Mutant]:
 
 
 RULES = {
-    "CPT": Rule("E-cpt", rule_cpt, 6, "every CPT row is written only after the row-sum check; default -> table -> entries -> completeness order; table layout", mut_cpt),
-    "CODEGEN": Rule("E-codegen", rule_codegen, 10, "generated loop draws variables in topological order, numbers values by domain position of their own variable, pairs value i with cpt row entry i", mut_codegen),
+    "CPT": Rule("E-cpt", rule_cpt, 5, "every CPT row is written only after the row-sum check; default -> table -> entries -> completeness order; table layout", mut_cpt),
+    "CODEGEN": Rule("E-codegen", rule_codegen, 6, "generated loop draws variables in topological order, numbers values by domain position of their own variable, pairs value i with cpt row entry i", mut_codegen, soft=True),
 }
